@@ -82,11 +82,14 @@ pub fn cells(tier: Tier) -> Vec<CellPlan> {
 
     // Events buffered on the server (emitted on a frame without a tick) at the moment it stops.
     let mut c = base("restart-buffered", 1);
+    c.oracles.c04 = true;
+    c.init = vec![Op::Spawn(0, (1 << TA) | (1 << TB))];
     c.alphabet = vec![
         EvOp::Nop,
         EvOp::StopServer,
         EvOp::StartServer,
         EvOp::StartServerWith(0),
+        EvOp::StartServerWithEmit(0),
         EvOp::Connect(0),
         EvOp::EmitS(SK::E1, Mode::Broadcast, None),
         EvOp::EmitS(SK::T1, Mode::Broadcast, None),
